@@ -133,7 +133,7 @@ PROPS = {
             "note": "Partial for memory: the allocation theorem is about a ghost model of bt.readBytes that is not tied by correspondence; the real allocator is only measured (TotalAlloc <= 64*len + 1 MiB per decode). encoding/json itself is modelled (shapes after decoding), not verified. Trusted: Lean kernel + standard axioms, harness/generators/comparer, driver glue.",
             "technique": "Lean 4 proof over hand-written model + differential correspondence check + measured allocation in isolated child processes",
         },
-        "generators": ["C09", "FZ09"],
+        "generators": ["C09", "FZ09", "FZ09c"],
         "thorough_seeds": 1,
         "gen_obligations": ["chunk_matches_source", "index_sites_reviewed_bt"],
         "rule": "every truncation of standard and extended serialisations of seed transactions through NewTxFromStream and a one-byte reader; bit flips (isolated); every truncation of inputs and outputs; crafted prefixes: script lengths, input/output/tx counts and extended previous-script lengths claiming {0xfd, 2^16-1, 2^16, 2^20, 2^31, 2^32-1, 2^32, 2^40, 2^62, 2^63, 2^63+1, 2^64-1} with 0/1/7/64 bytes following, minimal and 9-byte varints, through five entry points; random bytes; node-JSON shapes with absent/null/bad-hex fields; 34 JSON atoms x 2 nestings x 9 JSON entry points. Non-trivial = op on >= 5 bytes of input.",
